@@ -79,6 +79,23 @@ Definition bind_material_sync (old materials : list N) := py_sync old materials.
 Definition mesh_sync (is_extra : N -> bool) (old sources : list N) (vertices : N) (prims : list N) :=
   py_sync old (sources ++ vertices :: prims ++ filter is_extra old).
 
+(* Effect.save: every <newparam> is taken out of <profile_COMMON>, then the parameters' nodes are
+   inserted, in list order, where <technique> is.  <image>, <technique> and <extra> are not
+   managed by the parameter list. *)
+Fixpoint index_of (u : N) (l : list N) : nat :=
+  match l with [] => O | x :: r => if N.eqb x u then O else S (index_of u r) end.
+Definition profile_sync (is_param : N -> bool) (tec : N) (old params : list N) : list N :=
+  let rest := filter (fun c => negb (is_param c)) old in
+  let loc := index_of tec rest in
+  firstn loc rest ++ params ++ skipn loc rest.
+
+(* MaterialNode.save: the bind_vertex_input children are rebuilt from the tuples, after the
+   <bind> children and before anything else ([is_bvi] / [is_bind] classify old children) *)
+Definition instance_material_sync (is_bvi is_bind : N -> bool) (old fresh_inputs : list N) : list N :=
+  let rest := filter (fun c => negb (is_bvi c)) old in
+  let loc := length (filter is_bind rest) in
+  firstn loc rest ++ fresh_inputs ++ skipn loc rest.
+
 (* -------- documents as trees of objects; the heap gives, for every node identity, the
    child identities its XML element has right now (ANY old tree) -------- *)
 Inductive obj := Obj (u : N) (kids : list obj).
